@@ -80,7 +80,11 @@ def check_path(pt, path, st):
     for site_fact in st.facts:
         kind, what, ok, site = site_fact
         if not ok:
-            probs.append((f"existence/DDL template not case-insensitive: {what} is not {kind}", site))
+            if kind.startswith("scoped"):
+                probs.append((f"{what} is not {kind}: a schema of that name in another database makes connect skip CREATE SCHEMA / set a "
+                              f"schema that does not exist here", site))
+            else:
+                probs.append((f"existence/DDL template not case-insensitive: {what} is not {kind}", site))
     exp_created_db = pt.create_database and pt.database and not pt.db0
     db_after = pt.db0 or exp_created_db
     exp_created_schema = bool(pt.create_schema and pt.database and pt.schema and db_after and not (
